@@ -1,7 +1,7 @@
 (** Commands.v — the command table of the model runner. Every command maps
     a [val] to a [val]; the OCaml driver only parses and prints. *)
 From JSL Require Import Base Instance Dstate Filters World Observers Session Feasible Derived QuerySpec.
-From JSL Require CmdC03 CmdC14 CmdC15 CmdC16 CmdC19 CmdC20.
+From JSL Require CmdC03 CmdC04 CmdC11 CmdC12 CmdC14 CmdC15 CmdC16 CmdC17 CmdC18 CmdC19 CmdC20.
 
 Definition cmd_feasible (v : val) : val :=
   let I := dec_instance (vnth v 0) in
@@ -53,9 +53,14 @@ Definition run_cmd (c : Z) (v : val) : val :=
   match c / 100 with
   | 0 => run_core c v
   | 3 => CmdC03.run_c03 (c mod 100) v
+  | 4 => CmdC04.run_c04 (c mod 100) v
+  | 11 => CmdC11.run_c11 (c mod 100) v
+  | 12 => CmdC12.run_c12 (c mod 100) v
   | 14 => CmdC14.run_c14 (c mod 100) v
   | 15 => CmdC15.run_c15 (c mod 100) v
   | 16 => CmdC16.run_c16 (c mod 100) v
+  | 17 => CmdC17.run_c17 (c mod 100) v
+  | 18 => CmdC18.run_c18 (c mod 100) v
   | 19 => CmdC19.run_c19 (c mod 100) v
   | 20 => CmdC20.run_c20 (c mod 100) v
   | _ => VL []
